@@ -8,6 +8,7 @@ bodies return at most the requested amount (short reads) and may fail at any
 byte.
 """
 import base64
+import hashlib
 import re
 import types
 import zlib
@@ -480,7 +481,7 @@ class SimS3:
         def effect(payload, rec):
             u = self._open_upload(kwargs, 'UploadPart')
             self._etag_seq += 1
-            etag = '"etag-%s-%d-%d"' % (u['id'], pn, self._etag_seq)
+            etag = '"%s"' % hashlib.md5(bytes(payload)).hexdigest()
             part = {'etag': etag, 'data': payload, 'stamp': rec['begin']}
             r = {'ETag': etag, 'ResponseMetadata': {}}
             if kwargs.get('ChecksumAlgorithm', '').upper() == 'CRC32':
@@ -531,7 +532,7 @@ class SimS3:
                                        'UploadPartCopy')
                 data = data[a:b + 1]
             self._etag_seq += 1
-            etag = '"etag-%s-%d-%d"' % (u['id'], pn, self._etag_seq)
+            etag = '"%s"' % hashlib.md5(bytes(data)).hexdigest()
             part = {'etag': etag, 'data': data, 'stamp': rec['begin']}
             res = {'ETag': etag}
             if (u.get('algo') or '').upper() == 'CRC32':
